@@ -49,8 +49,9 @@ for cfg in $configs; do
 done
 wall=$(( $(date +%s) - t0 ))
 viol=0; [ $rc -eq 1 ] && viol=1
+level=exploration; case "$prop" in C07|C08) level=fault_enumeration;; esac
 cat > "$part" <<JSON
-{"property_id":"$prop","tier":"thorough","seed":$SEED,"level":"exploration","wall_s":$wall,"violations":$viol,
+{"property_id":"$prop","tier":"thorough","seed":$SEED,"level":"$level","wall_s":$wall,"violations":$viol,
  "assumptions":["libFuzzer campaigns are pinned only approximately by -seed/-runs; a saved failing input is the reproducible unit"],
  "coverage":{"build":"libfuzzer","evaluations":$total,"executions_of_code_under_test":$total,
   "distinct_nontrivial":$nontriv,"distinct_nontrivial_random_tier":$nontriv,"distinct_nontrivial_exhaustive_tier":0,
